@@ -4,7 +4,7 @@ from __future__ import annotations
 import copy
 
 from vf import core, filt
-from vf.filt import O, Raises, Var
+from vf.filt import O, Var
 
 META = {
     "level": "exploration",
